@@ -12,7 +12,7 @@ def run_proto(ctx, procs, sections, extra):
         os.makedirs(d, exist_ok=True)
         cmd = [harness_bin("proto"), "--seed", str(ctx.seed * 1000 + i), "--tier", ctx.tier, "--out", d] + sections + extra
         # vary the shard / worker count the store builds (num_cpus / 2): 1..8, powers of two and not
-        cpus = [2, 4, 6, 8, 10, 12, 14, 16][(i * 3) % 8]
+        cpus = [2, 4, 6, 8, 10, 12, 14, 16][(i * 3) % 8] if "writebehind" in sections else [2, 4, 8, 16][i % 4]
         cmd = ["taskset", "-c", "0-%d" % (cpus - 1)] + cmd
         try:
             r = subprocess.run(cmd, stdout=subprocess.PIPE, stderr=subprocess.PIPE, timeout=1500)
